@@ -6,7 +6,7 @@ out=seeded/MATRIX.tsv
 : > $out
 for d in seeded/C*/; do
   s=$(basename $d); prop=${s:0:3}
-  git -C /repo apply $d/patch.diff || { echo -e "$s\t$prop\tpatch-does-not-apply" >> $out; continue; }
+  git -C /repo apply /verif/$d/patch.diff || { echo -e "$s\t$prop\tpatch-does-not-apply" >> $out; continue; }
   res=$(./check $prop quick 2>&1)
   git -C /repo checkout -- .
   viol=$(echo "$res" | grep -c "^VIOLATION")
